@@ -87,8 +87,11 @@ def _present(v):
 def _top_types(fs):
     out = set()
     for s in fs:
-        if s[0] in ('R', 'P'):
+        if s[0] == 'R':
             out.add(s[1][1])
+        elif s[0] == 'P':
+            out.add(s[1][1])
+            out.add(s[2][1])       # the value Type is recognised too (right after a key)
         elif s[0] != 'K':
             out.add(s[1])
     return out
